@@ -382,3 +382,41 @@ func TestC07NonceDistinct(t *testing.T) {
 	vlib.ClassN("nonces-issued-concurrently", n/2)
 	vlib.NT("c07", "nonce-run", n)
 }
+
+// FuzzC07Check (thorough): arbitrary strings presented to a factory that has issued a few tokens.
+func FuzzC07Check(f *testing.F) {
+	fac, err := NewWebSessionFactory(time.Hour)
+	if err != nil {
+		f.Fatal(err)
+	}
+	issuedToks := map[string][2]string{}
+	for i, u := range []string{"bob", "alice", "root"} {
+		_, _, tok := fac.Generate(u, i%2 == 0)
+		issuedToks[tok] = [2]string{u, fmt.Sprint(i%2 == 0)}
+		f.Add(tok)
+		f.Add(tok[:len(tok)-1])
+		f.Add(tok + "A")
+	}
+	f.Add("AAAA:AAAA")
+	f.Add(":")
+	f.Fuzz(func(t *testing.T, s string) {
+		st, _, user, admin := fac.Check(s)
+		if st != http.StatusOK {
+			return
+		}
+		n, ct, ok := decodeTok(s)
+		if !ok {
+			t.Fatalf("VIOLATION C07: accepted %q which has no base64url reading", s)
+		}
+		for tok, id := range issuedToks {
+			tn, tct, _ := decodeTok(tok)
+			if string(tn) == string(n) && string(tct) == string(ct) {
+				if user != id[0] || fmt.Sprint(admin) != id[1] {
+					t.Fatalf("VIOLATION C07: token of %v accepted as (%q,%v)", id, user, admin)
+				}
+				return
+			}
+		}
+		t.Fatalf("VIOLATION C07: accepted %q whose decoded content was never issued (as %q,%v)", s, user, admin)
+	})
+}
